@@ -275,7 +275,7 @@ def file_mod(rel):
     return mods
 
 
-ORCHESTRATORS = {"link_cores", "link_cores_with_entry"}
+ORCHESTRATORS = {"link_cores", "link_cores_with_entry", "check_package", "build_package"}
 # second reading (core.Run.try_rule): an orchestrator with the phases that were carved out of it into private helpers put back in place
 INLINE_ORCHESTRATORS = False
 
